@@ -469,7 +469,9 @@ fn check_dump(drv: &mut Driver, rep: &mut Report, src: &str, dump: Result<(Strin
 /// every `lir::Instruction` kind of the generated kind list. Run FIRST in every
 /// tier, independent of the seed; every kind must go through the verified
 /// checker at least once (a kind no representative reaches is a mismatch: the
-/// model would claim a kind it never sees).
+/// model would claim a kind it never sees). `nested-records` is the shape of the
+/// scripts of share class `frame-slots` (by-reference locals, temporaries,
+/// arguments and return slots, a local live across a recursive call).
 const KIND_REPRESENTATIVES: &[(&str, &str)] = &[
     ("scalar-arith", "fn main(x: u32) -> u32 {\n  let a = (x + 3) * 2 - 1;\n  let b = a / 3 + a % 5;\n  if a < b && !(a == 7) { b } else { a }\n}\n"),
     ("signed-float", "fn main(x: i32) -> bool {\n  let y = -x;\n  let f = 2.5 / 0.5;\n  let g = -f;\n  if g < f { y < 3 } else { y >= 3 }\n}\n"),
@@ -477,6 +479,7 @@ const KIND_REPRESENTATIVES: &[(&str, &str)] = &[
     ("records-enums", "record P { a: u32, b: u32 }\nconst RC: P = P { a: 1, b: 2 };\nfn helper(p: P, k: u32) -> P { P { a: p.a + k, b: p.b } }\nfn main(x: u32) -> u32 {\n  let q = helper(RC, x);\n  let o: u32? = if q.a < 10 { Some(q.a) } else { None };\n  match o { Some(v) => v + 1, None => q.b }\n}\n"),
     ("tokens", "fn main(x: u32) -> u32 {\n  let t = mk(x);\n  let u = t;\n  tk_id(u) + tick()\n}\n"),
     ("ipaddr", "fn main(x: u32) -> bool {\n  let a = 1.2.3.4;\n  let b = 1.2.3.4;\n  if x < 3 { a == b } else { a == 10.0.0.1 }\n}\n"),
+    ("nested-records", "record Row { a: u64, b: u64 }\nrecord T { r0: Row, r1: Row }\nfn row(x: u64) -> Row { Row { a: x, b: x + 1 } }\nfn make(x: u64) -> T { T { r0: row(x), r1: row(x + 2) } }\nfn sum(t: T) -> u64 { t.r0.a + t.r0.b + t.r1.a + t.r1.b }\nfn rec(x: u64, d: u64) -> u64 {\n  let t = make(x + d);\n  let below = if d > 0 { rec(x, d - 1) } else { 0 };\n  sum(t) + below\n}\nfn main(x: u64) -> u64 {\n  let t = make(x);\n  t.r0.a = t.r0.a + 1;\n  sum(t) + rec(x, 2)\n}\n"),
     ("lists", "fn main(x: u32) -> u32 {\n  let l = [x, 2, 3];\n  l.push(x + 1);\n  let ls = [\"a\", \"b\"];\n  ls.push(\"c\");\n  let n = 0;\n  for e in l { n = n + e; }\n  n\n}\n"),
 ];
 
